@@ -449,18 +449,21 @@ def r_accessors(model, rep):
         cx = facts.fctx(model, f)
         S = P(cx.selfname)
         cache = ("attr", S, field)
-        # R-CACHE typestate
+        # R-CACHE typestate: every return hands out the cache field; the field is (re)loaded exactly when it is None; no
+        # return can be reached with an empty cache without passing the load
         rets = [ev for ev in cx.events if ev.kind == "return"]
-        hit = [r for r in rets if r.value == cache and list(r.guards) == [(("cmp", ("is not",), (cache, ("const", None))), True)]]
         loads = [ev for ev in cx.events if ev.kind == "store" and ev.target == cache]
-        ok = len(hit) == 1 and len(loads) == 1 and len(rets) == 2
+        isnone = ("cmp", ("is",), (cache, ("const", None)))
+        ok = bool(rets) and len(loads) == 1 and all(r.value == cache for r in rets)
         msg = "accessor must return the cached object when present, else load, store it in the same field and return that field"
         if ok:
             ld = loads[0]
             ok = ld.value[0] == "call" and ld.value[1] == ("attr", S, "_load_metadata") \
-                and list(ld.guards) == [(("cmp", ("is not",), (cache, ("const", None))), False)]
-            other = [r for r in rets if r not in hit][0]
-            ok = ok and other.value == cache and other.seq > ld.seq
+                and facts.canon_guards(ld.guards) == frozenset([facts.canon_guard((isnone, True))])
+            for r in rets:
+                cached_path = facts.canon_guard((isnone, False)) in facts.canon_guards(r.guards)
+                after_load = r.seq > ld.seq and facts.canon_guards(r.guards) <= facts.canon_guards(ld.guards)
+                ok = ok and (cached_path or after_load)
         rep.ob("R-CACHE", "Compose.%s" % name, ok, site=cx.site(f.node), msg="" if ok else msg)
         # siblings: no accessor touches another's cache field
         touched = set()
